@@ -3,12 +3,14 @@ use crate::engine::{Ctx, Fail};
 pub mod c03;
 pub mod c04;
 pub mod c08;
+pub mod c14;
 
 pub fn run(ctx: &Ctx) -> bool {
     match ctx.id.as_str() {
         "C03" => c03::run(ctx),
         "C04" => c04::run(ctx),
         "C08" => c08::run(ctx),
+        "C14" => c14::run(ctx),
         _ => return false,
     }
     true
@@ -20,6 +22,7 @@ fn replay_one(ctx: &Ctx, sub: &str, input: &serde_json::Value) -> Option<Result<
         "C03" => c03::replay(ctx, input),
         "C04" => c04::replay(ctx, sub, input),
         "C08" => c08::replay(ctx, sub, input),
+        "C14" => c14::replay(ctx, input),
         _ => return None,
     })
 }
